@@ -4,11 +4,15 @@ import json, os, sys
 ROOT = os.path.join(os.path.dirname(os.path.abspath(__file__)), "..")
 sys.path.insert(0, os.path.dirname(os.path.abspath(__file__)))
 from props import PROPS, MANIFEST_TEXT, NOT_APPLICABLE
+try:
+    from props import NOT_READY
+except ImportError:
+    NOT_READY = {}
 
 ids = [json.loads(l)["id"] for l in open(os.path.join(ROOT, "properties.jsonl"))]
 checks = []
 for pid in ids:
-    if pid not in PROPS:
+    if pid not in PROPS or pid in NOT_READY:
         continue
     t = MANIFEST_TEXT[pid]
     checks.append({
@@ -40,8 +44,8 @@ man = {
                            "real code (harness/, built against /repo with --cfg ethercrab_verif) and the model's native driver on the same cases"}
     ],
     "checks": checks,
-    "not_applicable": [{"property_id": p, "reason": NOT_APPLICABLE.get(p, "check not built yet in this session; see DESIGN.md §6 for the planned model and theorems")}
-                       for p in ids if p not in PROPS],
+    "not_applicable": [{"property_id": p, "reason": NOT_APPLICABLE.get(p, NOT_READY.get(p)) or ("check not built yet in this session; see DESIGN.md §6 for the planned model and theorems")}
+                       for p in ids if p not in PROPS or p in NOT_READY],
     "notes": "All checks: ./check <id> [--tier quick|thorough]; VERIF_SEED selects the PRNG seed. See DESIGN.md.",
 }
 json.dump(man, open(os.path.join(ROOT, "MANIFEST.json"), "w"), indent=1)
